@@ -123,7 +123,7 @@ func (vc *VC) callWith(com *ssa.CallCommon, args []string, recv string, ins ssa.
 			if ac.Loop > 0 && vc.callSiteOrdinal(ins, ac.Callee) != ac.Loop {
 				continue
 			}
-			env := vc.callSiteEnv(d)
+			env := vc.callSiteEnv(d, true)
 			env.local = vc.siteLocals(ins)
 			name := "[" + strings.Join(ac.Labels, ",") + "]"
 			if len(ac.Labels) == 0 {
@@ -556,6 +556,9 @@ func sortedKeys(m map[string]bool) []string {
 
 func (vc *VC) havocAll() {
 	for _, h := range sortedKeys(vc.P.allWrittenHeaps()) {
+		if strings.HasPrefix(h, "$") {
+			continue // ghost variables change only where a contract says so
+		}
 		vc.havocCallH(h)
 	}
 	vc.havocH(vc.st, "$next")
@@ -885,10 +888,14 @@ func shortKey(key string) string {
 
 // callSiteEnv binds the callee's parameter names to the actual arguments; the caller's
 // own parameters remain visible under their names when not shadowed.
-func (vc *VC) callSiteEnv(d *callDesc) *Env {
+// callSiteEnv binds the callee's parameter names to the arguments. Only call-site assertions of the caller's own
+// contract also see the caller's parameters (withCaller): a callee's contract must not capture caller names.
+func (vc *VC) callSiteEnv(d *callDesc, withCaller ...bool) *Env {
 	env := &Env{vc: vc, pkgPath: vc.pkgPath(), vars: map[string]TV{}, cur: vc.st, old: vc.entry}
-	for k, v := range vc.params {
-		env.vars[k] = v
+	if len(withCaller) > 0 && withCaller[0] {
+		for k, v := range vc.params {
+			env.vars[k] = v
+		}
 	}
 	fsig := d.fsig
 	args := d.args
